@@ -239,6 +239,54 @@ def three_mixed_schedule(seed, safeguard=False):
             "safeguard": safeguard, "origin": "crashpoints"}
 
 
+def partition_schedule(seed):
+    """A leader that cannot reach its followers: the post it accepted stays
+    uncommitted, it loses leadership (raft.ErrLeadershipLost), the rest of the
+    network elects a new leader and moves on; the deposed leader's uncommitted
+    entry is discarded when it comes back. The client must only see success for
+    what survives."""
+    rnd = random.Random(seed * 613 + 5)
+    steps = setup_steps(3)
+    steps += [{"op": "bg", "count": 1}, {"op": "barrier"},
+              {"op": "bindleader", "n": 9},
+              {"op": "pausefollowers"},
+              {"op": "post", "c": 1, "n": 9},
+              {"op": "sleep", "ms": 3200 + rnd.randrange(600)},     # LeaderLeaseTimeout is 2 s
+              {"op": "pause", "n": 9},
+              {"op": "resumeexcept", "n": 9},
+              {"op": "waitleader"},
+              {"op": "post", "c": 2, "n": "leader"}, {"op": "await", "c": 2},
+              {"op": "await", "c": 1, "ms": 40000},
+              {"op": "snapshot", "n": "leader"},
+              {"op": "resumeall"},
+              {"op": "barrier"},
+              {"op": "bg", "count": 1}, {"op": "barrier"}]
+    return {"name": "partition-%d" % seed, "nodes": 3, "clients": 3, "seed": seed, "steps": steps, "origin": "crashpoints"}
+
+
+def isolated_leader_schedule(seed):
+    """Like partition_schedule, but with crashes: both followers are killed, the
+    leader accepts a post it can never commit and loses leadership; it is killed
+    too; the followers come back (without that entry) and carry on; the old
+    leader rejoins and its uncommitted entry is discarded."""
+    rnd = random.Random(seed * 811 + 7)
+    steps = setup_steps(3)
+    steps += [{"op": "bg", "count": 1}, {"op": "barrier"},
+              {"op": "bind", "n": 9, "to": "leader"}, {"op": "bind", "n": 7, "to": "follower"}, {"op": "bind", "n": 8, "to": "follower2"},
+              {"op": "kill", "n": 7}, {"op": "kill", "n": 8},
+              {"op": "post", "c": 1, "n": 9},
+              {"op": "sleep", "ms": 3200 + rnd.randrange(600)},
+              {"op": "kill", "n": 9},
+              {"op": "restart", "n": 7}, {"op": "restart", "n": 8},
+              {"op": "waitleader"},
+              {"op": "post", "c": 2, "n": "leader"}, {"op": "await", "c": 2},
+              {"op": "await", "c": 1, "ms": 40000},
+              {"op": "restart", "n": 9},
+              {"op": "barrier"},
+              {"op": "bg", "count": 1}, {"op": "barrier"}]
+    return {"name": "isolated-%d" % seed, "nodes": 3, "clients": 3, "seed": seed, "steps": steps, "origin": "crashpoints"}
+
+
 def three_random_schedule(seed, rounds=4):
     rnd = random.Random(seed * 15485863 + 11)
     steps = setup_steps(3)
@@ -792,13 +840,15 @@ def run(ctx):
 
     seed = ctx.seed
     if ctx.quick:
-        scheds = [single_gate_schedule(seed), fold_schedule(seed, 1), three_mixed_schedule(seed, safeguard=True), f7_schedule(seed)]
-        ntlc, par = 1, 5
+        scheds = [single_gate_schedule(seed), fold_schedule(seed, 1), three_mixed_schedule(seed, safeguard=True), f7_schedule(seed),
+                  partition_schedule(seed), isolated_leader_schedule(seed)]
+        ntlc, par = 1, 7
     else:
         scheds = [single_gate_schedule(seed), single_gate_schedule(seed + 1)]
         scheds += [single_random_schedule(seed + i) for i in range(3)]
         scheds += [three_mixed_schedule(seed, safeguard=True), three_mixed_schedule(seed + 1)]
         scheds += [f7_schedule(seed), fold_schedule(seed, 1), fold_schedule(seed + 1, 1), fold_schedule(seed, 3)]
+        scheds += [partition_schedule(seed), partition_schedule(seed + 1), isolated_leader_schedule(seed), isolated_leader_schedule(seed + 1)]
         scheds += [three_random_schedule(seed * 100 + i) for i in range(10)]
         ntlc, par = 12, 4
 
